@@ -22,6 +22,12 @@ logging.disable(logging.CRITICAL)
 LEAN_TARGETS = ["NfcVerif.Props.C04", "drv_c04"]
 
 THEOREMS = [
+    "NfcVerif.C04.dep_exactly_once",
+    "NfcVerif.C04.dep_success_complete",
+    "NfcVerif.C04.dep_nothing_after_error",
+    "NfcVerif.C04.dep_transaction_at_most_once",
+    "NfcVerif.C04.dep_single_fault_recovered",
+    "NfcVerif.C04.dep_single_fault_statement_repaired",
     "NfcVerif.C04.dep_frame_bound",
     "NfcVerif.C04.dep_frame_bound_target_counterexample",
     "NfcVerif.C04.dep_error_kind_initiator",
@@ -78,7 +84,7 @@ def run_real(c):
                             miu_i=c.miu_i, miu_t=c.miu_t, exc_name=exc_name)
 
 
-def isolated(script, gap=6):
+def isolated(script, gap=4):
     """no expiry, every two faults at least `gap` delivered frames apart"""
     if "x" in script:
         return False
